@@ -343,19 +343,18 @@ func BufferSnippet(b []byte) string {
 	return fmt.Sprintf("%q...%q", bStart, bEnd)
 }
 
-func normalizeHeaderValue(ov, ob []byte, headerLength int) (nv, nb []byte, nhl int) {
-	nv = ov
+// normalizeHeaderValue joins the lines of a folded (obs-fold) header value in place.
+//
+// The value keeps its position and its length in the buffer: the bytes freed by
+// dropping the line breaks are overwritten with trailing spaces, so nothing after
+// the value moves and parsing the same buffer again yields the same value.
+func normalizeHeaderValue(ov []byte) []byte {
 	length := len(ov)
-	if length <= 0 {
-		return
-	}
 	write := 0
-	shrunk := 0
 	lineStart := false
 	for read := 0; read < length; read++ {
 		c := ov[read]
 		if c == '\r' || c == '\n' {
-			shrunk++
 			if c == '\n' {
 				lineStart = true
 			}
@@ -365,28 +364,13 @@ func normalizeHeaderValue(ov, ob []byte, headerLength int) (nv, nb []byte, nhl i
 		} else {
 			lineStart = false
 		}
-		nv[write] = c
+		ov[write] = c
 		write++
 	}
-
-	nv = nv[:write]
-	copy(ob[write:], ob[write+shrunk:])
-
-	// Check if we need to skip \r\n or just \n
-	skip := 0
-	if ob[write] == '\r' {
-		if ob[write+1] == '\n' {
-			skip += 2
-		} else {
-			skip++
-		}
-	} else if ob[write] == '\n' {
-		skip++
+	for i := write; i < length; i++ {
+		ov[i] = ' '
 	}
-
-	nb = ob[write+skip : len(ob)-shrunk]
-	nhl = headerLength - shrunk
-	return
+	return ov[:write]
 }
 
 func stripSpace(b []byte) []byte {
